@@ -59,6 +59,10 @@ CHECKS = {
    text="Generated workloads (1-3 page and tiny values, overwrites, deletes, none/zstd/lz4, tombstone log on/off, 4-8 blocks so most workloads wrap the device) produce device images; faults are enumerated for every page of the image incl. the tombstone log: zero page, all-ones page, two bit flips (one inside the first 64 bytes = header/checksum/count fields), swap within the block, swap across partitions and with the first tombstone page, older generations of the same page; plus generated multi-fault sets. Every fault is served to the running store (live index, load path) and applied to an image that is reopened in quiet mode; then every key is read. Oracle: no panic (catch_unwind), each read is a miss, an error or bit-exactly a version really inserted for that key.",
    note="A 64-bit xxhash collision is not searched for. A process abort (allocation failure) cannot be caught in-process: it would surface as a broken (aborted) check run, which is how the Vec::with_capacity abort was found. Byte-level mutation of single entries / blob indexes is the fuzz targets' job.",
    technique="fault enumeration over device images produced by generated workloads (proptest workloads, enumerated per-page faults, explicit validity oracle)"),
+ "C07": dict(engine="hybsim+fmt", category="exploration", design="§5 C07",
+   text="(splitter) generated block sizes, blob-index sizes and sequences of batches of entry lengths (boundary values, runs of 169/170/171/340/341 small entries) drive Buffer + Splitter::split with a persistent SplitCtx; invariants on every blob part and on a virtual device replayed from the parts and walked by an independent format reader (scan == written, disjoint regions, payload at recorded position). (end to end) hybsim histories whose batch boundaries are chosen by holding io, with sizes that fill the current block exactly / by one page more, runs that fill blob indexes, deletes, reuse after reclaim and graceful reopen; at every quiescent point: independent parse of every block (geometry, index == header, checksum), every key the disk tier claims loads and equals the entry the scan reconstructs as newest for its hash, and after a graceful reopen recovery == scan and nothing loadable is lost.",
+   note="Identity hasher; compression off in the end-to-end part. Staleness relative to the insert history is C01's claim and not asserted here. A runaway loop / allocation inside the splitter ends the run as inconclusive (exit 2) through run.sh's supervision.",
+   technique="property-based testing with an independent format reader as oracle (proptest random): direct splitter harness + end-to-end on the simulated device"),
 }
 
 NOT_YET = {
@@ -102,7 +106,7 @@ def main():
         "engines": [
             {"name": "memsim", "path": "/verif/harness/core/src/memsim.rs", "serves_properties": ["C05", "C13", "C14", "C16", "C17", "C18"],
              "kind_free_text": "single-threaded interpreter for foyer::Cache histories + event-driven reference model (memoracle.rs) + eviction reference models (evmodel.rs)"},
-            {"name": "hybsim", "path": "/verif/harness/core/src/hybsim.rs", "serves_properties": ["C01", "C03", "C04", "C10", "C12", "C15", "C17"],
+            {"name": "hybsim", "path": "/verif/harness/core/src/hybsim.rs", "serves_properties": ["C01", "C03", "C04", "C07", "C10", "C12", "C15", "C17"],
              "kind_free_text": "deterministic interpreter for HybridCache histories on a simulated device/io engine (simdev.rs) with harness-owned io completion order; oracles in hyboracle.rs; independent format reader fmtparse.rs"},
             {"name": "fetchsim", "path": "/verif/harness/core/src/fetchsim.rs", "serves_properties": ["C06", "C11", "C17"],
              "kind_free_text": "manual executor for get_or_fetch histories: harness futures for disk lookup / origin fetch, harness-driven runtime, protocol state machine as oracle"},
